@@ -53,7 +53,7 @@ def run(ctx):
         root, sites = rs[v]
         evals += len(sites)
         unk, key, unm = meta.normalise(r["diags"], sites)
-        a_only, m_only = worlds.compare(r["diags"], m["diags"], ("IMM", "CTOR", "TONL", "PKGO"))
+        a_only, m_only = worlds.compare(r["diags"], m["diags"], worlds.MODELLED)
         d1 = sorted(unk ^ b_unk)
         d2 = sorted(key ^ b_key)
         bad = r["crashed"] or r["rc"] not in (0, 3) or rc != 0
